@@ -14,6 +14,20 @@ def canon(op, v):
     return v
 
 
+def history_disagreement(steps, r):
+    """per step [legacy outcome, current outcome] with outcomes new k / dup k / err: they must agree, except that a request whose
+    name belongs to ANOTHER live object is refused by the current API (SingletonError without `existing`) while the legacy model,
+    which looks for duplicates first, reports the duplicate"""
+    taken = {}
+    for (seq, st, name), (l, c) in zip(steps, r):
+        ok = l == c or (c[0] == "err" and l[0] == "dup" and name is not None and name in taken and taken[name] != l[1])
+        if not ok:
+            return {"step": [seq, st, name], "legacy": l, "current": c}
+        if c[0] == "new" and name is not None:
+            taken[name] = c[1]
+    return None
+
+
 def run(ctx):
     rng, quick = ctx.rng, ctx.tier == "quick"
     res = prove(ctx)
@@ -108,6 +122,26 @@ def run(ctx):
             if isinstance(r, Err) or got != want:
                 found.append({"key": {"dup": rq[1]}, "input": rq[1], "what": f"legacy duplicate detection says {r!r}; rotation-equivalent: {want}",
                               "snippet": f"from dsdobjects.core.deprecated import DSD_Complex  # create {rq[1][:2]!r} then {rq[1][2:]!r}"})
+        # histories of creation requests (explicit / automatic names, rotations, refused requests in between): the legacy
+        # registry reports a duplicate exactly when the current API resolves the request to the existing object
+        hist = []
+        for _ in range(400 if quick else 8000):
+            hp = []
+            for _ in range(rng.randrange(1, 4)):
+                sq, st = rng.choice(pop)
+                hp += [(r[0], r[1]) for r in gen_pil.rotations(sq, st)]
+            steps = []
+            for _ in range(rng.randrange(2, 7)):
+                sq, st = rng.choice(hp)
+                steps.append([list(sq), list(st), rng.choice(["A", "B", "C", None, None])])
+            hist.append(("legacy_history", steps))
+        for rq, r in zip(hist, run_impl(hist)):
+            bad = r if isinstance(r, Err) else history_disagreement(rq[1], r)
+            if bad:
+                found.append({"key": {"history": rq[1]}, "input": {"history": rq[1]},
+                              "what": f"legacy and current object model disagree on a history of creation requests: {bad!r}",
+                              "snippet": f"# harness op legacy_history {rq[1]!r} (harness/impl/legacy.py)"})
+        ctx.cov["correspondence"]["legacy-histories(impl)"] = {"cases": len(hist)}
         iu = []
         for _ in range(200 if quick else 4000):
             rna = rng.random() < 0.5
@@ -137,6 +171,10 @@ def run(ctx):
 
 def replay(data):
     inp = data.get("input")
+    if isinstance(inp, dict) and "history" in inp:
+        r = run_impl([("legacy_history", inp["history"])])[0]
+        print(r)
+        return 1 if (isinstance(r, Err) or history_disagreement(inp["history"], r)) else 0
     if not inp:
         print(json.dumps(data.get("broken_links"))[:2000]); return 1
     print(run_impl([("legacy_complex", inp), ("c03_history", [inp[0], inp[1], [["canonical_form"], ["size"], ["kernel_string"]]])]))
